@@ -15,7 +15,7 @@ pub type Result<T> = std::result::Result<T, Error>;
 #[derive(Clone, Copy)] pub struct CalculateStrategy { pub c: u8 }
 #[derive(Clone, Copy)] pub struct ControlStrategy { pub c: u8 }
 /// the fields of flow::Rule this function reads; everything else is behind `rule_eq` / `stat_reusable`
-pub struct Rule { pub resource: String, pub calculate_strategy: CalculateStrategy, pub control_strategy: ControlStrategy, pub rest: u64 }
+pub struct Rule { pub id: String, pub resource: String, pub calculate_strategy: CalculateStrategy, pub control_strategy: ControlStrategy, pub rest: u64 }
 #[verifier::external_body] pub struct StandaloneStat { _p: u8 }
 #[verifier::external_body] pub struct Controller { _p: u8 }
 pub struct ControllerGenKey { pub calculate_strategy: CalculateStrategy, pub control_strategy: ControlStrategy }
